@@ -131,6 +131,12 @@ def model_trace(case, D, variant, seed, optimize):
         ks = [F(k, 2) for k in range(2 * l[0], 2 * l[2] + 1)] if naxes == 1 else [F(k) for k in range(l[0], l[2] + 1, step)]
         per_axis.append([F(c08_fonts.DEF[a]) + c08_fonts.STEP * (k * l[3] if k < 0 else k * l[4]) for k in ks])
     locs = [[x] for x in per_axis[0]] if naxes == 1 else [[x, y] for x in per_axis[0] for y in per_axis[1]]
+    if len(locs) > 8:
+        # the new default, the corners and a seeded choice of the other lattice points
+        rng = random.Random(seed)
+        must = [[l[i] for l in lims_full] for i in (1, 0, 2)]
+        rest = [l for l in locs if l not in must]
+        locs = must + rng.sample(rest, 8 - len(must))
     re_ = {"kind": "model", "case": {k: case[k] for k in ("vars", "lims", "map", "fvs", "avar_knots")}, "D": D, "variant": variant,
            "seed": seed, "optimize": optimize}
     return font_trace(data, "model:%s" % common.digest([case["vars"], case["lims"], case["map"], case["fvs"], variant]), "model",
@@ -138,10 +144,10 @@ def model_trace(case, D, variant, seed, optimize):
 
 
 def model_tasks(chk, gen, bad):
-    rng = chk.rng
+    rng = random.Random("C08-RF-%d" % chk.seed)
     quick = chk.tier == "quick"
-    share = {"one": 0.05, "one2": 0.12, "two": 0.06, "avar": 0.1, "fv": 0.03} if quick else \
-            {"one": 0.05, "one2": 0.2, "two": 0.03, "avar": 0.05, "fv": 0.05}
+    share = {"one": 0.015, "one2": 0.04, "two": 0.02, "avar": 0.03, "fv": 0.005} if quick else \
+            {"one": 0.04, "one2": 0.15, "two": 0.02, "avar": 0.03, "fv": 0.02}
     out = []
     for fam, cases in sorted(gen.items()):
         for case, D in cases:
@@ -349,7 +355,7 @@ def corpus_traces(path, seed, nspecs, nlocs, first):
 
 
 def tasks(chk):
-    rng = chk.rng
+    rng = random.Random("C08-V-%d" % chk.seed)
     quick = chk.tier == "quick"
     paths = variable_corpus()
     per_font = 10 if quick else 48
